@@ -306,12 +306,23 @@ func (w *worker) runBehaviour(b *Behaviour, idx int, rng *rand.Rand) {
 		w.col.outcome(st.Req, resp.Status, gotMsg)
 		if isPre {
 			if resp.Status != 200 {
-				w.col.inconclusive(fmt.Sprintf("prefix request %s %s answered %d", c.Method, c.Target, resp.Status))
+				// a prefix request is a valid admin request the model answers 200 in the state the earlier prefix
+				// requests (all answered 200) should have produced: the daemon's own answer says otherwise
+				w.col.violation(stepKey("prefix-status", st.Req, resp.Status, []int{200}),
+					fmt.Sprintf("valid request %s %s (building the state for the enumerated request, after earlier requests were all answered 200) was answered %d %s",
+						c.Method, trunc(c.Target, 300), resp.Status, trunc(string(resp.Body), 100)), replay(""))
 				return
 			}
 			if i == len(b.Pre)-1 && b.PrePost != nil {
 				// the enumerated request must meet a quiescent registry in exactly the state the model starts from
 				got, strangers, ok, _, err := w.waitObs(nm, b.PrePost, 30*time.Second)
+				if err == nil && !ok && len(strangers) == 0 {
+					// every prefix request was answered 200, nobody else touched the daemon, 30 s have passed
+					w.col.violation("prefix-effect route="+st.Req.Route,
+						fmt.Sprintf("create/delete/pause requests that were all answered 200 did not have their stated effect: registry %s, stated %s",
+							obsString(got), obsString(b.PrePost)), replay(""))
+					return
+				}
 				if err != nil || !ok {
 					w.col.inconclusive(fmt.Sprintf("prefix did not reach the model's registry state: %v got %s strangers=%v want %s",
 						err, obsString(got), strangers, obsString(b.PrePost)))
